@@ -110,6 +110,9 @@ def effect (i : Instr) : Eff :=
   | "TemplateLookup" => { flow := .cond, throws := false }
   | "Case" => { flow := .cond, throws := false }
   | "Return" => { flow := .stop, throws := false }
+  -- the TypeError of a derived constructor that returns a primitive goes through `Context::handle_throw`: it unwinds the
+  -- frame and is never delivered to a handler of this block
+  | "CheckReturn" => { throws := false }
   | "Throw" | "ReThrow" | "ThrowNewTypeError" | "ThrowNewReferenceError" | "ThrowMutateImmutable" | "DeleteSuperThrow" => { flow := .stop }
   | "Move" | "StoreZero" | "StoreOne" | "StoreInt8" | "StoreInt16" | "StoreInt32" | "StoreFloat" | "StoreDouble" | "StoreNan"
   | "StorePositiveInfinity" | "StoreNegativeInfinity" | "StoreNull" | "StoreTrue" | "StoreFalse" | "StoreUndefined"
